@@ -24,7 +24,7 @@ From Coq Require Import List Arith NArith ZArith Bool Lia.
 From Verif Require Import Base.Bytes Base.Outcome Model.Quote Model.Args Model.Numfmt
   Model.StatusQuery Model.Xfer Model.Md5 Model.RawProto Model.Wire
   Proofs.XferProofs Proofs.RawProofs Proofs.WireProofs Proofs.WireInv Proofs.WireTheorems
-  Proofs.WireOnce Proofs.WireWitness.
+  Proofs.WireOnce Proofs.WireWitness Model.ReadBuf Proofs.ReadBufProofs.
 Import ListNotations.
 Local Open Scope N_scope.
 
@@ -339,3 +339,86 @@ Proof. exact held_mutex_blocks_reply. Qed.
 (* the interleaving schedule of the counter-model is refused by the lock *)
 Example C01_example_lock_refuses : run cfg_locked init nolock_trace = None.
 Proof. exact locked_refuses_second_writer. Qed.
+
+(* ---- the memory a decoded body lives in (Model/ReadBuf.v) ----
+   A handler input / a call result is a Go value decoded from a frame that was read into a
+   POOLED buffer; the buffer is handed out again for the next message of this or any other
+   session.  [rrun zc evs]: ANY sequence of reads, each into ANY array of the pool (or a fresh
+   one), of ANY messages, decoded under the zero-copy table [zc]; [views] is what the holder
+   of each decoded body reads from its value after the last read.
+
+   A value decoded by a COPYING case - or behind a pipe that produces fresh bytes - reads as
+   the bytes its own sender supplied for ever, whatever is read later into whichever buffer:
+   no byte of any other message is ever observable in it. *)
+Theorem C01_held_value_never_changes : forall zc evs i a m,
+  nth_error evs i = Some (a, m) ->
+  zc (rm_kind m) && negb (rm_fresh m) = false ->
+  nth_error (views (rrun zc evs)) i = Some (rm_body m).
+Proof. exact held_copy_stable_lemma. Qed.
+Print Assumptions C01_held_value_never_changes.
+
+(* ... which, for the code as it is ([code_zc]), covers the *[]byte body, the plain codec's
+   *string and *[]byte cases, form values that needed unescaping, and the JSON / XML /
+   protobuf / thrift codecs ... *)
+Theorem C01_copying_codecs_hold : forall evs i a m,
+  nth_error evs i = Some (a, m) -> In (rm_kind m) copying_kinds ->
+  nth_error (views (rrun code_zc evs)) i = Some (rm_body m).
+Proof. exact code_copying_kinds_hold_lemma. Qed.
+Print Assumptions C01_copying_codecs_hold.
+
+(* ... and every kind behind the gzip filter. *)
+Theorem C01_fresh_pipe_protects : forall zc evs i a m,
+  nth_error evs i = Some (a, m) -> rm_fresh m = true ->
+  nth_error (views (rrun zc evs)) i = Some (rm_body m).
+Proof. exact fresh_pipe_protects_lemma. Qed.
+Print Assumptions C01_fresh_pipe_protects.
+
+(* When all reads copy, the holders read exactly the bodies, in order. *)
+Corollary C01_all_copying_views : forall zc evs,
+  (forall ev, In ev evs -> zc (rm_kind (snd ev)) && negb (rm_fresh (snd ev)) = false) ->
+  views (rrun zc evs) = map (fun ev => rm_body (snd ev)) evs.
+Proof. exact all_copy_views_lemma. Qed.
+Print Assumptions C01_all_copying_views.
+
+(* At the moment it is decoded EVERY value reads right, zero-copy or not (which is why a
+   check that looks at once sees nothing) ... *)
+Theorem C01_value_right_when_decoded : forall zc st a m,
+  rd (r_heap (rstep zc st (a, m))) (decoded zc m (arr_of st (a, m))) = rm_body m.
+Proof. exact fresh_value_right_lemma. Qed.
+Print Assumptions C01_value_right_when_decoded.
+
+(* ... and a zero-copy value stays right exactly as long as no later read goes into the array
+   it points into (the strongest true statement about such a value) ... *)
+Theorem C01_window_intact_until_buffer_reused : forall zc st a m evs,
+  (forall ev st', In ev evs -> arr_of st' ev = arr_of st (a, m) -> False) ->
+  nth_error (views (rfold zc (rstep zc st (a, m)) evs)) (length (r_held st)) = Some (rm_body m).
+Proof. exact window_intact_lemma. Qed.
+Print Assumptions C01_window_intact_until_buffer_reused.
+
+(* ... but the pool hands the array out again: with the plain codec's *string case converted
+   in place ([string_zc]) the holder of one string reads the body of a LATER message. *)
+Theorem C01_plain_string_zero_copy_refuted :
+  exists evs a m a2 m2,
+    nth_error evs 0 = Some (a, m) /\ nth_error evs 1 = Some (a2, m2) /\
+    rm_kind m = KPlainString /\ rm_fresh m = false /\ rm_body m <> rm_body m2 /\
+    nth_error (views (rrun string_zc evs)) 0 = Some (rm_body m2).
+Proof. exact string_zc_leaks_lemma. Qed.
+Print Assumptions C01_plain_string_zero_copy_refuted.
+
+(* The code as it is decodes three kinds without copying (plain codec into a named string or
+   named []byte type: parseProperType; form codec values that need no unescaping): for each of
+   them the property fails - known findings plain-named-alias and form-alias. *)
+Theorem C01_named_and_form_values_alias_buffer_refuted :
+  forall k, In k [KPlainNamedString; KPlainNamedBytes; KFormValue] ->
+  exists evs a m a2 m2,
+    nth_error evs 0 = Some (a, m) /\ nth_error evs 1 = Some (a2, m2) /\
+    rm_kind m = k /\ rm_fresh m = false /\ rm_body m <> rm_body m2 /\
+    nth_error (views (rrun code_zc evs)) 0 = Some (rm_body m2).
+Proof. exact code_zc_leaks_lemma. Qed.
+Print Assumptions C01_named_and_form_values_alias_buffer_refuted.
+
+(* Non-vacuity: a run in which the buffer IS reused and a copying decode holds its value. *)
+Example C01_example_copy_survives_reuse :
+  views (rrun code_zc (two_reads KPlainString)) = [str "AAAA-0000"; str "BBBB-0002"] /\
+  r_heap (rrun code_zc (two_reads KPlainString)) = [str "hBBBBB-0002"].
+Proof. split; vm_compute; reflexivity. Qed.
